@@ -28,10 +28,13 @@ class Cfg:
         else:
             if not isinstance(value, self.tp):
                 raise ValueError(f"Invalid value of config '{self.name}'")
-        self.value = value
+        # store the value on the Configs instance, not on the (class-level) descriptor
+        instance.__dict__[self.name] = value
 
     def __get__(self, instance, owner=None):
-        return self.value
+        if instance is None:
+            return self.default
+        return instance.__dict__.get(self.name, self.default)
 
 
 class Configs:
